@@ -777,7 +777,7 @@ RULES = [
 
 
 from . import shared
-RULES = RULES + shared.bundle('C01', ['density', 'limits', 'centre', 'unit-sum', 'relative'], ['details', 'kernel', 'kerneldll', 'direct_model', 'weights'])
+RULES = RULES + shared.bundle('C01', ['cos', 'density', 'limits', 'centre', 'unit-sum', 'relative'], ['details', 'kernel', 'kerneldll', 'direct_model', 'weights'])
 from . import folds as _folds
 RULES = RULES + [_folds.fold_rule('C01')]
 from .. import refs as _refs
